@@ -42,7 +42,8 @@ func runC08(c *core.Ctx) {
 	{
 		a := rule(c, "C08.R1")
 		guardsOf := func(fn *ssa.Function, errType string) (string, ssa.Instruction) {
-			for _, r := range returnsOf(fn) {
+			for _, rc := range deepReturns(c, fn) {
+				r := rc.Ret
 				if len(r.Results) != 1 {
 					continue
 				}
@@ -50,7 +51,8 @@ func runC08(c *core.Ctx) {
 					continue
 				}
 				var ats []string
-				for _, at := range p.DominatingAtoms(fn, r) {
+				for _, at := range p.DominatingAtoms(rc.Fn, r) {
+					at = rc.Rename(at)
 					// keep the atoms that belong to this limit (the two Set functions differ in unrelated
 					// early exits, e.g. RBT returns before the buffer check for flag-only updates)
 					rel := map[string][]string{"ErrKeyTooLarge": {"len(param#0)"}, "ErrEntryTooLarge": {"entrySizeLimit", "nil == param#1"}, "ErrTxnTooLarge": {"bufferSizeLimit"}}[errType]
@@ -80,10 +82,15 @@ func runC08(c *core.Ctx) {
 			a.checkAt(v == 65535, pk+".MaxKeyLen", "-", "math.MaxUint16", fmt.Sprintf("MaxKeyLen is %d, documented limit is math.MaxUint16", v))
 		}
 		for _, fn := range []*ssa.Function{artSet, rbtSet} {
-			for _, r := range returnsOf(fn) {
+			for _, rc := range deepReturns(c, fn) {
+				r := rc.Ret
+				var atoms []string
+				for _, at := range p.DominatingAtoms(rc.Fn, r) {
+					atoms = append(atoms, rc.Rename(at))
+				}
 				if len(r.Results) == 1 && descHas(c, r.Results[0], "ErrKeyTooLarge") {
 					okk := false
-					for _, at := range p.DominatingAtoms(fn, r) {
+					for _, at := range atoms {
 						if at == "F:(len(param#0) < const(65536))" {
 							okk = true
 						}
@@ -91,11 +98,11 @@ func runC08(c *core.Ctx) {
 					a.check(okk, fname(fn)+" key limit", r, "len(key) > MaxKeyLen", "oversized keys are not rejected exactly above MaxKeyLen (len(key) > 65535)")
 				}
 				if len(r.Results) == 1 && descHas(c, r.Results[0], "ErrEntryTooLarge") {
-					ats := strings.Join(p.DominatingAtoms(fn, r), " ")
+					ats := strings.Join(atoms, " ")
 					a.check(strings.Contains(ats, "F:(nil == param#1)") && strings.Contains(ats, "entrySizeLimit,recv) < (len(param#0) + len(param#1)))"), fname(fn)+" entry limit", r, "", "entry size limit is not `value != nil && len(key)+len(value) > entrySizeLimit`: "+ats)
 				}
 				if len(r.Results) == 1 && descHas(c, r.Results[0], "ErrTxnTooLarge") {
-					ats := strings.Join(p.DominatingAtoms(fn, r), " ")
+					ats := strings.Join(atoms, " ")
 					a.check(strings.Contains(ats, "bufferSizeLimit,recv) < call(") && strings.Contains(ats, ").Size)#0[recv])") || strings.Contains(ats, "bufferSizeLimit,recv) < fld(ART.size,recv))") || strings.Contains(ats, "bufferSizeLimit,recv) < fld(RBT.size,recv))"), fname(fn)+" buffer limit", r, "", "buffer size limit is not `Size() > bufferSizeLimit`: "+ats)
 				}
 			}
